@@ -222,6 +222,13 @@ def enumerate_cases(tier, seed):
     for cells in sparse:
         for nan in (None, (2, 2)):
             cases.append({"carver": "binary", "kind": "QNT", "cells": [list(c) for c in cells], "nan": list(nan) if nan else None, "dev": None, "cfg": {"sort_by": "cramerv", "max_n_mod": 5, "min_freq": 0.1, "min_freq_mod": None, "output_dtype": "float", "dropna": True}, "seed": seed, "tier": tier})
+    # continuous targets in tenths: groups whose means are mathematically equal but are summed in different orders
+    dec = [(1, 2, 3), (3, 1, 2), (2, 2, 2), (0, 1), (4, 5)]
+    tabs, tr = space.construct(dec, 2, 3, ordered=True)
+    transitions += tr
+    for cells in tabs:
+        for kind in ("ORD", "QNT"):
+            cases.append({"carver": "continuous", "kind": kind, "cells": [list(c) for c in cells], "nan": None, "dev": None, "cfg": {"max_n_mod": 3, "min_freq": 0.1, "min_freq_mod": None, "output_dtype": "float", "dropna": True}, "seed": 0 if kind != "QNT" else seed, "tier": tier, "yscale": 0.1})
     if tier != "quick":
         # tiny frames (N <= 6): all row permutations
         for cells in [[(1, 1), (1, 1), (0, 1)], [(1, 0), (0, 1), (1, 1)], [(2, 0), (1, 1), (0, 2)], [(1, 1), (2, 1)], [(1, 0), (1, 1), (0, 1), (1, 0)]]:
